@@ -806,3 +806,10 @@ def _count(ev, node):
     c = z3.ToInt(t)
     ev.st.assume(z3.And(t == z3.ToReal(c), c >= 0))
     return SInt(c)
+
+
+@specfn("same")
+def _same(ev, node):
+    """same(a, b): the very same value including its type (True is not the same as 1.0)"""
+    a, b = ev.e(node.args[0]), ev.e(node.args[1])
+    return wrap_bool(to_V(a, ev.heap) == to_V(b, ev.heap))
